@@ -30,7 +30,9 @@ class OnnxGroupQueryAttention(pattern.RewriteRuleClassBase):
 
         present_key_BHkvStD = op.Concat(past_key_BHkvSpD, key_BHkvSD, axis=-2)
         present_key_BHkv1StD = op.Unsqueeze(present_key_BHkvStD, 2)
-        present_key_BHkvGStD = op.Expand(present_key_BHkv1StD, pattern.ANY_VALUE)
+        present_key_BHkvGStD = op.Expand(
+            present_key_BHkv1StD, pattern.ANY_VALUE, _outputs=["present_key_BHkvGStD"]
+        )
         present_key_BHStD = op.Reshape(
             present_key_BHkvGStD, pattern.ANY_VALUE, _outputs=["present_key_BHStD"]
         )
@@ -39,7 +41,9 @@ class OnnxGroupQueryAttention(pattern.RewriteRuleClassBase):
         # that share key/value.
         present_value_BHkvStD = op.Concat(past_value_BHkvSpD, value_BHkvSD, axis=-2)
         present_value_BHkv1StD = op.Unsqueeze(present_value_BHkvStD, 2)
-        present_value_BHkvGStD = op.Expand(present_value_BHkv1StD, pattern.ANY_VALUE)
+        present_value_BHkvGStD = op.Expand(
+            present_value_BHkv1StD, pattern.ANY_VALUE, _outputs=["present_value_BHkvGStD"]
+        )
         present_value_BHStD = op.Reshape(
             present_value_BHkvGStD, pattern.ANY_VALUE, _outputs=["present_value_BHStD"]
         )
@@ -64,8 +68,16 @@ class OnnxGroupQueryAttention(pattern.RewriteRuleClassBase):
         past_value_BHkvSpD,
         present_key_BHStD,
         present_value_BHStD,
+        present_key_BHkvGStD,
+        present_value_BHkvGStD,
+        attention_BHSDh,
         **_,
     ):
+        # A causal mask of the matched node is aligned to the top-left corner of [S, S+P]; the fused
+        # node, which owns the past, would align it after the P cached positions.
+        is_causal = attention_BHSDh.producer().attributes.get_int("is_causal", 0)
+        if is_causal != 0:
+            raise _fusion_utils.MatchFailureError("Attention with is_causal=1 is not supported.")
         bindings: dict[str, Dim] = {}
         # Check that inputs to new Attention node have expected shapes
         _fusion_utils.check_shape(bindings, query_BHSD, ["B", "H", "S", "D"])
@@ -78,6 +90,12 @@ class OnnxGroupQueryAttention(pattern.RewriteRuleClassBase):
         # TODO (rama): May be better to check the actual Expand/Reshape arguments.
         _fusion_utils.check_shape(bindings, present_key_BHStD, ["B", "H", "S+P", "D"])
         _fusion_utils.check_shape(bindings, present_value_BHStD, ["B", "H", "S+P", "D"])
+        # The heads must be repeated group by group: Expand yields [B, Hkv, G, S+P, D].
+        _fusion_utils.check_shape(bindings, present_key_BHkvGStD, ["B", "Hkv", "G", "S+P", "D"])
+        _fusion_utils.check_shape(bindings, present_value_BHkvGStD, ["B", "Hkv", "G", "S+P", "D"])
+        h, hkv, g = bindings["H"], bindings["Hkv"], bindings["G"]
+        if not (isinstance(h, int) and isinstance(hkv, int) and isinstance(g, int) and h == hkv * g):
+            raise _fusion_utils.MatchFailureError("H is not statically Hkv * G.")
 
         return True
 
